@@ -188,6 +188,8 @@ func (g *htmlGen) rawElement() {
 	closeName := low
 	if r.p(25) {
 		closeName = strings.ToUpper(low)
+	} else if r.p(15) {
+		closeName = strings.ToUpper(low[:1]) + low[1:]
 	}
 	st := len(g.out)
 	g.emit("</" + closeName)
@@ -195,7 +197,8 @@ func (g *htmlGen) rawElement() {
 		g.emit(r.pick([]string{" ", "\n", "\t "}))
 	}
 	g.emit(">")
-	g.toks = append(g.toks, gTok{Kind: 1, Name: "/" + low, Value: string(g.out[st:]), S: st, E: len(g.out)})
+	// the end tag is recognised case-insensitively and reported with the name AS WRITTEN
+	g.toks = append(g.toks, gTok{Kind: 1, Name: "/" + closeName, Value: string(g.out[st:]), S: st, E: len(g.out)})
 }
 
 // doc generates a whole document; returns source and expected tokens.
